@@ -1,9 +1,16 @@
 """C09 - no panic or abort for any valid-parameter call sequence or configuration."""
 import json, os
 import seqprop
+import policytie
 from props import _seqplans
 
-THEOREMS = json.load(open(os.path.join(os.path.dirname(__file__), "_theorems.json")))["C09"]
+# Requests.v: the requests / class tables handed out by Classing::simple / Classing::movable and the JSON policy lie
+# inside C09's hypotheses (valid slot index, ids < 8, configured default, reflexive-Match + demote-transitive policy)
+THEOREMS = {"C09.v": json.load(open(os.path.join(os.path.dirname(__file__), "_theorems.json")))["C09"],
+            "Requests.v": ["Req_simple_valid", "Req_movable_valid", "Req_simple_valid_b", "Req_movable_valid_b",
+                           "Req_valid_b_sound", "Req_simple_class", "Req_movable_class", "Req_simple_classing_wf",
+                           "Req_movable_classing_wf", "Req_json_ordered", "Req_json_refl_match", "Req_json_demote_trans",
+                           "Req_json_kind_indep", "Req_json_never_invalid"]}
 
 
 def run(ctx):
@@ -11,6 +18,8 @@ def run(ctx):
     return seqprop.run(
         ctx, THEOREMS, corr=('result',), oracle=('C09',),
         quick_plan=quick, thorough_plan=thorough, corpus_tags=('D1', 'D2', 'D3', 'D4', 'D5', 'D6'),
+        # the Coq policies / request closures / class tables compared directly with the compiled functions
+        extra=policytie.run_policy_tie,
         # the harness's `custom` policy is not demote-transitive (hypothesis pol_demote_trans of the theorem, shown
         # necessary by upper_inv_needs_demote_trans): its 'unreserve invalid class' panic is outside C09's scope
         # ("every class configuration the repository uses"); the model reproduces it (no CORR mismatch)
